@@ -16,6 +16,7 @@ import PygProofs.Lemmas.DateTextLemmas
 import PygProofs.Lemmas.AmbiguityLemmas
 import PygProofs.Lemmas.SqueezeLemmas
 import PygProofs.Lemmas.NpDateLemmas
+import PygProofs.Lemmas.MonthNameLemmas
 
 namespace Pyg.Props.C04
 open Pyg Pyg.Bump Pyg.DateParse Pyg.Gen Pyg.Greg Pyg.NpDate
@@ -444,6 +445,61 @@ theorem iso_datetime_text (uk : Bool) (y m d h mi sec : Nat) (v : Valid y m d) (
   rw [checkRange_ok]; unfold DAYUS at hm; exact ⟨by omega, rfl⟩
 
 example : dtCs false "2000-02-29 23:59:59".toList = some (.ok (mkDate 2000 2 29 + 86399000000)) := eq_of_okView (by decide +kernel)
+
+/-! ### month-name strings (`1 Jan 2000`, `01-January-2000`, `January 1, 2000`, `Jan 1 2000`)
+
+The month names are those of dateutil's own table, lifted into the GENERATED `Gen.duMonths` (`IsMonthName m w`: `w` is, in any
+capitalisation, a name that table lists for month `m`); the scanner's reading of these shapes is the ASSUMED dateutil behaviour,
+sampled by correspondence (tags `month-name*`). -/
+
+/-- the month table the theorems below quantify over is the English one (`sept` included): a changed dateutil table breaks this -/
+theorem du_months_english : Gen.duMonths =
+    [["jan", "january"], ["feb", "february"], ["mar", "march"], ["apr", "april"], ["may", "may"], ["jun", "june"], ["jul", "july"],
+     ["aug", "august"], ["sep", "sept", "september"], ["oct", "october"], ["nov", "november"], ["dec", "december"]] := rfl
+
+/-- `dt` of EVERY month-name spelling of a calendar date — day with one or two digits, month name abbreviated or in full and in
+any capitalisation, four-digit year, optional time of day `[ T]h:m[:s[.f]]` to the microsecond — in the four shapes
+`d Mon yyyy`, `d-Mon-yyyy`, `Mon d, yyyy`, `Mon d yyyy` is that instant, in both dialects (no dialect test fires: the text does not
+match the `ambiguity` regex, see `ambiguous_iff`) -/
+theorem month_name_text (uk : Bool) (y m d : Nat) (v : Valid y m d) (w dd yy tm : List Char) (hms us : Int)
+    (hw : IsMonthName m w) (hdd : IsNumeral 2 dd) (hyy : IsNumeral 4 yy) (hy4 : yy.length = 4)
+    (vd : digitsVal dd = d) (vy : digitsVal yy = y) (ht : TimeText tm hms us) :
+    (∀ s, s = ' ' ∨ s = '-' → dtCs uk (dd ++ s :: (w ++ s :: (yy ++ tm))) = some (checkRange (mkDate y m d + hms + us)))
+    ∧ dtCs uk (w ++ ' ' :: (dd ++ ',' :: ' ' :: (yy ++ tm))) = some (checkRange (mkDate y m d + hms + us))
+    ∧ dtCs uk (w ++ ' ' :: (dd ++ ' ' :: (yy ++ tm))) = some (checkRange (mkDate y m d + hms + us)) := by
+  refine ⟨fun s hs => ?_, ?_, ?_⟩
+  · unfold dtCs
+    rw [parse_dMy_text m dd w yy tm s hms us hs hdd hw hyy hy4 ht, vy, vd]
+    simp only [Option.map_some]
+    rw [if_neg ht.nonneg, decide_plain uk y m d v hms us]
+  · unfold dtCs
+    rw [parse_Mdy_comma_text m dd w yy tm hms us hdd hw hyy hy4 ht, vy, vd]
+    simp only [Option.map_some]
+    rw [if_neg ht.nonneg, decide_plain uk y m d v hms us]
+  · unfold dtCs
+    rw [parse_Mdy_text m dd w yy tm hms us hdd hw hyy hy4 ht, vy, vd]
+    simp only [Option.map_some]
+    rw [if_neg ht.nonneg, decide_plain uk y m d v hms us]
+
+/-- the date alone, as `strftime` writes it (`%d %B %Y`, `%d-%b-%Y`, `%B %d, %Y`, …): midnight of the day -/
+theorem month_name_date_text (uk : Bool) (y m d : Nat) (v : Valid y m d) (w : List Char) (hw : IsMonthName m w) :
+    dtCs uk (pad2 d ++ ' ' :: (w ++ ' ' :: (pad4 y ++ []))) = some (.ok (mkDate y m d))
+    ∧ dtCs uk (pad2 d ++ '-' :: (w ++ '-' :: (pad4 y ++ []))) = some (.ok (mkDate y m d))
+    ∧ dtCs uk (w ++ ' ' :: (pad2 d ++ ',' :: ' ' :: (pad4 y ++ []))) = some (.ok (mkDate y m d)) := by
+  have hv := v; unfold Valid at hv
+  have hb := dim_bounds y m hv.2.2.1 hv.2.2.2.1
+  have h := month_name_text uk y m d v w (pad2 d) (pad4 y) [] 0 0 hw (isNumeral_pad2 d) (isNumeral_pad4 y) rfl
+    (val_pad2 d (by omega)) (val_pad4 y (by omega)) TimeText.none
+  simp only [Int.add_zero, checkRange_mkDate y m d v] at h
+  exact ⟨h.1 ' ' (Or.inl rfl), h.1 '-' (Or.inr rfl), h.2.1⟩
+
+example : IsMonthName 9 "SePt".toList ∧ IsMonthName 1 "January".toList ∧ IsMonthName 5 "may".toList ∧ ¬ IsMonthName 1 "Janu".toList := by
+  decide +kernel
+example : dtCs true "13 Sept 2000 10:30".toList = some (.ok (mkDate 2000 9 13 + 37800000000))
+    ∧ dtCs false "JAN 01, 2000".toList = some (.ok (mkDate 2000 1 1)) ∧ dtCs false "1-feb-2000".toList = some (.ok (mkDate 2000 2 1)) :=
+  ⟨eq_of_okView (by decide +kernel), eq_of_okView (by decide +kernel), eq_of_okView (by decide +kernel)⟩
+/-- an impossible month-name date is dateutil's ParserError (a ValueError), never a rolled date -/
+example : dtCs true "31 Feb 2000".toList = some (.error .value) := eq_of_isValueError (by decide +kernel)
 
 /-! ### white space around the text is ignored (the dialect tests see the stripped text) -/
 
